@@ -394,6 +394,77 @@ def small_decl0(rng, passing=True):
     return agg(0)
 
 
+# ---- aggregates of an exact size (round 3): the by-value RETURN path moves an aggregate that travels in registers
+# in pieces whose access type depends on sizeof (update_last_qword_type: I8/I16/I32/F for a tail of <= 4 bytes, whole
+# eightbytes otherwise), so every size 1..16 - not only the powers of two - and every class of the eightbytes is a
+# case of its own, with every byte significant (no padding unless asked for).
+SIZED_KINDS = {1: [('b', 'char'), ('b', 'uchar'), ('b', 'schar'), ('b', 'char'), ('b', 'uchar'), ('b', 'bool')],
+               2: [('b', 'short'), ('b', 'ushort')],
+               4: [('b', 'int'), ('b', 'uint'), ('e', 'int'), ('e', 'pos')],
+               8: [('b', 'long'), ('b', 'ulong'), ('b', 'llong'), ('p',), ('e', 'long')]}
+SIZED_FP = {4: ('b', 'float'), 8: ('b', 'double')}
+RET_SIZES = list(range(1, 18)) + [20, 24, 32, 33]
+
+
+def sized_decl(rng, n, pad=None):
+    """a struct/union whose sizeof is exactly n.  Members are laid without internal padding (each scalar of size s at a
+    multiple of s, s dividing the chosen alignment a, a dividing n); with pad = p (0 < p < a) the last p bytes are tail
+    padding instead.  Then possibly: a prefix folded into a (named or anonymous) member struct, a union with a byte
+    array of at most the same size, an array of one."""
+    r = rng
+    aligns = [a for a in (1, 2, 4, 8) if n % a == 0]
+    a = r.choice(aligns + aligns[-1:])
+    if pad is None:
+        pad = r.randint(1, a - 1) if a > 1 and r.random() < 0.2 else 0
+    pad = min(pad, a - 1)
+    data = n - pad
+    p_fp = r.choice([0.0, 0.0, 0.5, 1.0])
+    ms, ends = [], []
+    off = 0
+    if pad:
+        # the member that gives the struct its alignment (so that the tail is padded up to n)
+        t = SIZED_FP[a] if a in SIZED_FP and r.random() < p_fp else r.choice(SIZED_KINDS[a])
+        ms.append(('n', t))
+        off = a
+        ends.append((off, a))
+    amax = a if pad else 1
+    while off < data:
+        ss = [s for s in (1, 2, 4, 8) if s <= a and off % s == 0 and s <= data - off]
+        s = r.choice(ss + ss[-1:])
+        t = SIZED_FP[s] if s in SIZED_FP and r.random() < p_fp else r.choice(SIZED_KINDS[s])
+        cnt = r.randint(1, (data - off) // s) if r.random() < 0.45 else 1
+        if cnt > 1 or r.random() < 0.1:
+            t = ('a', cnt, t)
+        ms.append(('n', t))
+        off += cnt * s
+        amax = max(amax, s)
+        ends.append((off, amax))
+    # fold a prefix into a member struct when that leaves every offset where it is (its end is a multiple of its alignment)
+    if len(ms) >= 2 and r.random() < 0.35:
+        k = r.randint(1, len(ms) - 1)
+        if ends[k - 1][0] % ends[k - 1][1] == 0:
+            ms = [(r.choice('no'), ('s', ms[:k]))] + ms[k:]
+    t = ('s', ms)
+    k = r.random()
+    if k < 0.12:
+        t = ('u', [('n', t), ('n', ('a', r.randint(1, n), ('b', r.choice(['char', 'uchar']))))])
+    elif k < 0.2:
+        t = ('u', [('n', ('a', n, ('b', 'uchar'))), ('n', t)])
+    elif k < 0.28:
+        t = ('s', [('n', ('a', 1, t))])
+    return t
+
+
+def ret_size_decls(rng, per_size=3):
+    """per size n in RET_SIZES: (n, the plain byte array) and per_size times (n, a random aggregate of exactly that size)"""
+    out = []
+    for n in RET_SIZES:
+        out.append((n, ('s', [('n', ('a', n, ('b', rng.choice(['char', 'uchar', 'schar']))))])))
+        for _ in range(per_size):
+            out.append((n, sized_decl(rng, n)))
+    return out
+
+
 # ------------------------------------------------------------------ C emission
 
 class Emit:
@@ -838,6 +909,12 @@ static void c08_repat (void *obj, void *sub, unsigned long n, unsigned k) {
   unsigned char *b = obj;
   for (unsigned long i = (unsigned char *) sub - b; n > 0; i++, n--) b[i] = (unsigned char) (1 + (k * 37 + i * 11) % 250);
 }
+/* all n bytes at p still hold the canary value */
+static int c08_canary_ok (const void *p, unsigned long n) {
+  const unsigned char *b = p;
+  for (unsigned long i = 0; i < n; i++) if (b[i] != 0xa5) return 0;
+  return 1;
+}
 /* checksum of the non-padding bits (mask m) of an object */
 static unsigned long c08_sum (const void *p, const void *m, unsigned long n) {
   const unsigned char *b = p, *mm = m;
@@ -904,7 +981,8 @@ def pass_tus(decls):
     'P <i> <dir> ok|BAD' with dir: a (c2m caller -> gcc callee, argument), r (gcc callee -> c2m caller, return
     value), A (gcc caller -> c2m callee, argument), R (c2m callee -> gcc caller, return value),
     v (c2m caller -> gcc variadic callee, va_arg), V (gcc caller -> c2m variadic callee),
-    m (c2m caller -> gcc callee, mixed signature MIX_SIGS[i % 12]), M (gcc caller -> c2m callee, mixed signature)"""
+    m (c2m caller -> gcc callee, mixed signature MIX_SIGS[i % 12]), M (gcc caller -> c2m callee, mixed signature),
+    n (gcc callee -> c2m caller, return value stored into the middle element of an array: value and neighbours)"""
     common, info = pass_common(decls)
     lib = [common]
     main = ['#include <stdio.h>', common]
@@ -962,6 +1040,10 @@ def pass_tus(decls):
                     % (i, i, mcall, hsel, i, mcall, hsel, i))
         main.append('  fill%d (&v, k + 7); e = c_mtake%d (%s)%s; r = g_call_mtake%d (c_mtake%d, k + 7); printf ("P %d M %%s\\n", r == e ? "ok" : "BAD");'
                     % (i, i, mcall, hsel, i, i, i))
+        # the returned value lands in the middle element of an array: intact, and the neighbours untouched
+        main.append('  { %s arr[3]; memset (arr, 0xa5, sizeof arr); arr[1] = g_give%d (k + 8); fill%d (&v, k + 8); '
+                    'printf ("P %d n %%s\\n", sum%d (&arr[1]) == sum%d (&v) && c08_canary_ok (&arr[0], sizeof arr[0]) '
+                    '&& c08_canary_ok (&arr[2], sizeof arr[2]) ? "ok" : "BAD"); }' % (tn, i, i, i, i, i))
         main.append('}')
         body.append('  pass%d ();' % i)
     main.append('int main (void) {')
